@@ -214,7 +214,7 @@ def probeify(hist, rng, scn):
     used = set()
     while i < len(hist):
         ev, args = hist[i]
-        if ev == 'Submit':
+        if ev in ('Submit', 'Probe'):
             used.add(args[0])
         if ev == 'RemoveApp':
             used.discard(args[0])
@@ -245,7 +245,8 @@ def gen_queue_scn(rng, name):
                 paths.append(top + '/' + mid + '/w')
     allocs = {}
     for p in paths:
-        allocs[p] = _al(rank=rng.choice([80, 90, 100, 100]), adj=rng.choice([0, 0, 10, 30]),
+        # (ranks and adjustments over the whole legal range 0..100: an adjustment may exceed the rank)
+        allocs[p] = _al(rank=rng.choice([0, 10, 80, 90, 100, 100]), adj=rng.choice([0, 0, 10, 20, 30]),
                         reserved=(rng.randrange(0, 4), rng.randrange(0, 4)),
                         maxutil=rng.choice([None, None, 0, 1, 2, 3]))
     profiles = []
@@ -390,6 +391,62 @@ def gen_evict(scn, rng):
     if rng.random() < 0.4:
         victim = rng.choice(fillers)
         h += [('RemoveApp', [victim]), ('Submit', [victim, rng.choice(high)]), ('Cycle', [])]
+    return h
+
+
+def gen_identity_chain(scn, rng):
+    """Identity groups under several changes between two cycles: holders lose their
+    server (removed / down), the group is shrunk and grown again, members come and
+    go - then pending members compete for the identities."""
+    groups = sorted(scn.get('groups') or {})
+    gprofs = [i + 1 for i, p in enumerate(scn['aprofiles']) if p.get('group')]
+    if not groups or not gprofs:
+        return gen_random(scn, rng, 10)
+    apps = list(scn['apps'])
+    rng.shuffle(apps)
+    first, late = apps[:max(2, len(apps) - 2)], apps[max(2, len(apps) - 2):]
+    h = [('Submit', [a, rng.choice(gprofs)]) for a in first] + [('Cycle', [])]
+    servers = sorted(s for s, k in scn['server_init'].items() if k)
+    for _ in range(rng.randrange(2, 5)):
+        r = rng.random()
+        g = rng.choice(groups)
+        if r < 0.3 and len(servers) > 1:
+            s = servers.pop(rng.randrange(len(servers)))
+            h.append((rng.choice(['RemoveServer', 'RemoveServer', 'Down']), [s]))
+        elif r < 0.75:
+            h.append(('SetCount', [g, rng.randrange(0, 4)]))
+        elif r < 0.85 and first:
+            h.append(('RemoveApp', [first.pop(rng.randrange(len(first)))]))
+        else:
+            h.append(('Tick', [1]))
+    for a in late:
+        h.append(('Submit', [a, rng.choice(gprofs)]))
+    h += [('Cycle', []), ('Cycle', [])]
+    return h
+
+
+def gen_probe_readd(scn, rng):
+    """C02: instances with limits above the server level placed, then servers that
+    host them are removed and re-added (or go down and come back) - whatever the
+    racks/pods/cell remember of them must be gone - then a probe of the same kind."""
+    lim = [i + 1 for i, p in enumerate(scn['aprofiles'])
+           if any(k != 'server' for k in p['limits'])]
+    if not lim:
+        return gen_random(scn, rng, 10)
+    apps = list(scn['apps'])
+    rng.shuffle(apps)
+    prof = rng.choice(lim)
+    n = rng.randrange(1, max(2, len(apps) - 1))
+    h = [('Submit', [a, prof if rng.random() < 0.8 else rng.choice(lim)]) for a in apps[:n]] + [('Cycle', [])]
+    servers = [(s, k) for s, k in sorted(scn['server_init'].items()) if k]
+    rng.shuffle(servers)
+    for s, k in servers[:rng.randrange(1, len(servers) + 1)]:
+        if rng.random() < 0.75:
+            h += [('RemoveServer', [s])] + ([('Cycle', [])] if rng.random() < 0.5 else []) + [('AddServer', [s, k])]
+        else:
+            h += [('Down', [s]), ('Tick', [rng.choice([1, 5])]), ('Cycle', []), ('Up', [s])]
+        h.append(('Cycle', []))
+    h += [('Quiesce', []), ('Probe', [apps[n], prof])]
     return h
 
 
